@@ -504,8 +504,10 @@ func (da *DistributedAllocator) loadAllocations(ctx context.Context) error {
 				continue
 			}
 
-			// Allocate in epoch allocator (will set correct generation)
-			da.epochAllocator.Allocate(ctx, alloc.SubscriberID)
+			// Restore the recorded address in the epoch allocator (will set correct generation)
+			if err := da.epochAllocator.SetAllocation(alloc.SubscriberID, prefix.IP); err != nil {
+				continue
+			}
 		} else {
 			// Session mode: set allocation directly from store
 			if err := da.allocator.SetAllocation(alloc.SubscriberID, prefix); err != nil {
@@ -555,12 +557,12 @@ func (da *DistributedAllocator) handleRemoteChange(key string, value []byte, del
 		}
 
 		// Check if we already have this allocation
-		if existing := da.epochAllocator.Lookup(alloc.SubscriberID); existing != nil {
+		if existing := da.epochAllocator.Lookup(alloc.SubscriberID); existing != nil && existing.Equal(prefix.IP) {
 			return // Already in sync
 		}
 
-		// Allocate in epoch allocator
-		da.epochAllocator.Allocate(context.Background(), alloc.SubscriberID)
+		// Apply remote allocation with the address it announces
+		da.epochAllocator.SetAllocation(alloc.SubscriberID, prefix.IP)
 	} else {
 		// Session mode: check if we already have this allocation
 		if existing := da.allocator.Lookup(alloc.SubscriberID); existing != nil {
